@@ -1409,8 +1409,9 @@ def op_dump_load(w, s):
         if len(o.node_list) > 1:
             o.compress(temp_m_trunc=max(1, max(o.bond_dims) // 2))
         o2 = obj.copy().scale(0.5)
-        out = [np.asarray(n.tensor) for n in o.node_list] + [np.asarray(complex(o.coeff)), np.asarray(obj.norm)] + [np.asarray(n.tensor) for n in (o2 + obj).node_list]
-        return out
+        # (values, not tensors: the gauge inside degenerate subspaces is free)
+        return [dense_tree(o, "ttns", w.ref_index, w.nref) * o.coeff, np.asarray(o.bond_dims), np.asarray(obj.norm),
+                dense_tree(o2 + obj, "ttns", w.ref_index, w.nref)]
     np.random.seed(s.get("rngseed", 0) % (2 ** 32))
     try:
         r1 = cont(e.obj)
@@ -1422,7 +1423,7 @@ def op_dump_load(w, s):
     except Exception as ex:
         raise V({"C14"}, "C14.tree.reloaded_unusable", f"operations that work on the original fail on the reloaded TTNS: {type(ex).__name__}: {ex}", sig=f"C14.tree.reloaded_unusable:{type(ex).__name__}")
     for x, y in zip(r1, r2):
-        if x.shape != y.shape or not np.array_equal(x, y):
+        if x.shape != y.shape or float(np.abs(x - y).max() if x.size else 0.0) > 1e-12 * max(float(np.abs(x).max() if x.size else 0.0), 1e-300):
             raise V({"C14"}, "C14.tree.continuation_differs", "canonicalise/compress/scale/add on the reloaded TTNS differ from the same operations on the original", sig="C14.tree.continuation_differs")
     w.stats.probes["roundtrip_continuation:tree"] += 1
     return "done"
